@@ -16,7 +16,7 @@ def run(prop, pcfg, repo, scratch, seed, cfg):
         out["undecided"].append("thorough: replay crate did not build: %s" % err[-300:]); return [out]
     known = [e for e in json.load(open(os.path.join(ROOT, "known_findings.json")))["findings"] if e["property"] == prop and e.get("status") == "known"]
     for b, args in finders:
-        exe = os.path.join(ROOT, "replay", "target", "release", b)
+        exe = replay.exe(scratch, b)
         for k in range(3):
             sd = str(seed + k)
             try:
